@@ -1,7 +1,7 @@
 (* C20 - regression witness for the repaired defect: MidiMappernRT::clear()
    before the fix emptied the learn queue without withdrawing the watches the
    queued addresses had been given.  The old function and the history on which
-   the property fails with it (a fully synchronous, quiescent history). *)
+   the property fails with it (a fully synchronous, nocross history). *)
 From Coq Require Import List ZArith Bool.
 From RtoscV Require Import Midi.MidiModel Midi.MidiSpec.
 Import ListNotations.
@@ -40,7 +40,7 @@ Definition leak_history : list event :=
 Lemma clear_watch_leak_refuted :
   exists tr fin,
     run_old leak_ports world0 leak_history = (tr, Some fin) /\
-    quiescent leak_history tr = true /\
+    nocross leak_history tr = true /\
     nth_error tr 5 = Some [OA 6 None] /\            (* offered, nothing queued *)
     nth_error tr 8 = Some [] /\                     (* p1 queued, 6 not taken *)
     learnQ (wn fin) = [(1, true)] /\ assigned_targets 6 tr = [] /\
